@@ -19,6 +19,8 @@ def run(ctx):
     if not quick:
         st += [[f, i, j] for f in FBS for i in INNER1 for j in INNER1 if not (seq.CATALOG[i]["k"] == "hg" and seq.CATALOG[j]["k"] == "hg")]
     jobs = [dict(ctx=ctx, binary=binary, name="fb%d" % k, stacks=st[k::3], outs=seq.OUTS4, maxcalls=3 if quick else 4, execs=2, workers=6) for k in range(3)]
+    typed = [["fbT"], ["fbT", "rpT"], ["fbT", "cbTy"], ["fbT", "rpA"], ["fbT", "cbA"], ["fbH2", "fbT"], ["fbT", "rpTR"]]
+    jobs.append(dict(ctx=ctx, binary=binary, name="fbtyped", stacks=typed, outs=seq.OUTS_TY, maxcalls=3, execs=2, workers=4))
     mism = seq.run_jobs(ctx, jobs, par=3)
     seq.report(ctx, mism, accept)
     return vlib.finish(ctx, rule="fallback-centred stacks (5 fallback configurations: result / error / handled subset / ErrExceeded+result / ErrOpen) over and under %d inner policies; "
